@@ -117,4 +117,18 @@ PROPS = {
                 "corrupted ones, recovery ids outside 0..3 (oracle = secp256k1 crate)",
         "assumes": ["SHA-256, Ed25519 and secp256k1 are third-party primitives: the theorems hold for arbitrary oracles, the correspondence fills the oracles by calling the crates"],
     },
+    "C14": {
+        "level_text": "Coq theorems about a code-shaped model of BytecodeMapped: mapping succeeds exactly when parsing succeeds with the identical error; ops(), op(i) and the index table agree with the parsed list (the slice index and both expects are unreachable for values built by try_from_bytes or from_iter); from_iter reproduces to_bytes; exec depends on its accessor only pointwise, hence execution over the mapped form equals execution over the list (state, gas, trace, errors; Compute children included). Correspondence: structure of mapped values on valid/invalid/truncated byte strings, and every VM case is executed as list, owned mapped and borrowed mapped bytecode.",
+        "properties": "Properties/C14",
+        "corr": ["Corr/RunMapped", "Corr/RunVm"],
+        "engines": [
+            {"engine": "mapped", "quick": 1200, "thorough": 40000},
+            {"engine": "vm", "quick": 700, "thorough": 20000,
+             "args": ["--families", "prog,control,compute,state,access,malformed", "--evals", "c14_spec_failures", "--gas"]},
+        ],
+        "rule": "byte strings: every byte in the middle of a program, an invalid opcode inserted at every position of a program with Pushes, "
+                "every truncation, random valid/truncated/mutated serialisations; mapped structure compared field by field (indices, ops(), "
+                "op(i) for i up to len+1, from_iter); plus VM programs (jumps, repeats, compute) executed three ways from the same state",
+        "assumes": [],
+    },
 }
